@@ -60,7 +60,9 @@ XYZ = [(0.1 + 1e-9, 1e-7, -2e-7), (1.25 + 3e-9, 0.1 + 2e-9, 0.25), (-0.5, 1.0 + 
 QS = [0.1 + 1e-9, -0.375 - 1e-7, 0.48123456789, 0.25 + 1e-9]
 WEIGHTS = [0.7 + 1e-9, 0.3 - 1e-9]
 ELEMS = ["C", "O", "H", "H"]
-BONDS = [(0, 1), (0, 2), (1, 3)]  # atoms 2 and 3 have exactly one bond (attachment points for join)
+# (a1, a2) as STORED in the bond: mixed directions (index(a1) > index(a2) and <), list not sorted by
+# index; atoms 2 and 3 have exactly one bond (attachment points for join)
+BONDS = [(3, 1), (0, 1), (2, 0)]
 
 
 # -------------------------------------------------------------------------------------------------
@@ -87,9 +89,11 @@ def _atoms(tag, seed, pop="full"):
     v = seed + 1
     at = [
         Atom("C", isotope=13, label=f"c0{tag}", atype=AtomType.sp3, stereo=AtomStereo.R, geom=AtomGeom.R4_Tetrahedral, formal_charge=0, formal_spin=0, attrib={"k": v, "n": {"x": [1, v]}, "arr": np.array([1.5, float(v)])}),
-        Atom("O", label=f"o1{tag}", atype=AtomType.Regular, geom=AtomGeom.R2_Bent, formal_charge=-1, attrib={"k": "o", "n": {"x": v}}),
+        Atom("O", label=f"o1{tag}", atype=AtomType.Regular, geom=AtomGeom.R2_Bent, formal_charge=-1, attrib={"k": "o", "n": {"x": v}, "z0": 0, "zs": "", "zf": 0.0, "zt": (), "zb": False, "zn": None}),
         Atom("H", isotope=2, label=f"h2{tag}", attrib={"k": 2.5, "n": {}, "l": []}),
-        Atom("H", label=f"h3{tag}", formal_spin=1, attrib={"n": {"x": None}}),
+        # the FALSY member of every field's domain where that is not the default: isotope 0 (default None),
+        # label '' (None), atype Unknown = 0 (Regular); stereo / geom / formal_charge default to their falsy member
+        Atom("H", isotope=0, label="", atype=AtomType.Unknown, formal_spin=1, attrib={"n": {"x": None}}),
     ]
     if pop != "full":
         for a in at:
@@ -137,6 +141,11 @@ def build_base(clsname, seed, tag="", pop="full"):
                 bd.btype = BondType.Double
                 bd.stereo = BondStereo.E
                 bd.f_order = 2.0
+            elif j == 2:
+                # falsy and not the default: label '' (None), btype Unknown = 0 (Single), f_order 0.0 (1.0)
+                bd.label = ""
+                bd.btype = BondType.Unknown
+                bd.f_order = 0.0
             bd.attrib.update(_bond_attrib(j, seed, pop))
     return m
 
@@ -177,13 +186,15 @@ def enc(v, depth=0):
     """canonical, comparable encoding of an attribute value"""
     if depth > 8:
         return ("deep",)
-    if v is None or isinstance(v, (bool, str, bytes)):
+    if isinstance(v, bool):
+        return ("bool", v)  # False is not 0
+    if v is None or isinstance(v, (str, bytes)):
         return v
     if isinstance(v, (int, np.integer)):
         return int(v)
     if isinstance(v, (float, np.floating)):
         f = float(v)
-        return "NaN" if f != f else f"{f!r}|{f.hex()}"  # compared bit for bit (-0.0 != 0.0), NaN == NaN
+        return ("float", "NaN" if f != f else f"{f!r}|{f.hex()}")  # 0.0 is not 0; bit for bit (-0.0 != 0.0), NaN == NaN
     if isinstance(v, dict):
         return ("dict", tuple(sorted(((repr(k), enc(x, depth + 1)) for k, x in v.items()))))
     if isinstance(v, (list, tuple)):
@@ -514,9 +525,9 @@ def fidelity_product(rname, sa, sb, sp):
         out.append(("bonds", "len"))
     else:
         for i, (x, y) in enumerate(zip(exp, got)):
-            # endpoints may be listed in either order
-            if {x["a1"], x["a2"]} != {y["a1"], y["a2"]}:
-                out.append(("bonds", i, "a1"))
+            # end points are an ORDERED pair (bond_vector, the mol2 text depend on which is a1)
+            if (x["a1"], x["a2"]) != (y["a1"], y["a2"]):
+                out.append(("bonds", i, "a1" if x["a1"] != y["a1"] else "a2"))
             x2, y2 = dict(x), dict(y)
             for k in ("a1", "a2"):
                 x2.pop(k)
@@ -935,10 +946,11 @@ def _repro_of(cell, seed):
         full = pop == "full"
         L += [
             "def build(tag=''):",
-            "    atoms = [Atom('C', label='c0'+tag), Atom('O', label='o1'+tag), Atom('H', label='h2'+tag), Atom('H', label='h3'+tag)]",
+            "    atoms = [Atom('C', label='c0'+tag), Atom('O', label='o1'+tag), Atom('H', label='h2'+tag), Atom('H', isotope=0, label='', atype=AtomType.Unknown)]",
             f"    m = Molecule(atoms, name='src'+tag, charge=-1, mult=2, coords={_coords(seed)!r}, atomic_charges={_charges()!r})",
-            "    for a, b in [(0, 1), (0, 2), (1, 3)]:",
+            f"    for a, b in {BONDS!r}:   # stored direction (a1, a2), deliberately mixed",
             "        m.connect(a, b)",
+            "    m.bonds[2].label, m.bonds[2].btype, m.bonds[2].f_order = '', BondType.Unknown, 0.0   # falsy, not the defaults",
         ]
         if full:
             L += [
@@ -1008,6 +1020,9 @@ def _repro_of(cell, seed):
     L.append("def show(o):")
     L.append("    return repr(dict(name=o.name, attrib=o.attrib, atoms=[(a.label, a.element, a.formal_charge, a.attrib) for a in o.atoms],")
     L.append("                bonds=[(b.label, b.btype, b.attrib) for b in getattr(o, 'bonds', [])], coords=getattr(o, 'coords', None), q=getattr(o, 'atomic_charges', None)))")
+    L.append("print('bonds (a1, a2, label, btype, f_order)  source:', [(src.atoms.index(b.a1), src.atoms.index(b.a2), b.label, b.btype, b.f_order) for b in getattr(src, 'bonds', [])])")
+    L.append("print('bonds (a1, a2, label, btype, f_order)  copy  :', [(cp.atoms.index(b.a1), cp.atoms.index(b.a2), b.label, b.btype, b.f_order) for b in getattr(cp, 'bonds', [])])")
+    L.append("print('atom fields source:', [(a.isotope, a.label, a.atype) for a in src.atoms], ' copy:', [(a.isotope, a.label, a.atype) for a in cp.atoms])")
     L.append("print('same dict object on both sides:', [a.attrib is b.attrib for a, b in zip(cp.atoms, src.atoms)], cp.attrib is src.attrib)")
     L.append("print('nested containers that are the same object:', [k for a, b in zip(list(cp.atoms) + [cp], list(src.atoms) + [src]) for k, v in a.attrib.items() if isinstance(v, (dict, list)) and v is b.attrib.get(k)])")
     for m, d in zip(muts, dirs):
@@ -1141,6 +1156,10 @@ def run(ctx):
         "a text or library format; the source values are not representable in float32 (1e-7 ... 1e3)",
         "attribute dictionaries are compared recursively by value (list == tuple); 'shares no mutable state' includes nested "
         "containers inside attribute dictionaries",
+        "bonds are snapshot as ORDERED (index(a1), index(a2)) pairs plus every field; the sources store bonds in mixed directions "
+        "and not sorted by index.  Every field of atoms and bonds occurs with the falsy member of its domain where that is not the "
+        "default (isotope 0, label '', AtomType.Unknown, BondType.Unknown, f_order 0.0; 0 / '' / 0.0 / () / False / None inside attrib) "
+        "and with a non-default truthy one; values are compared with their kind (None vs '' vs 0 vs 0.0 vs False; enum members by value)",
         "parent is compared as a relation (the atom's parent is the object it is listed in, or the ensemble behind a conformer)",
         "copy.copy and Substructure are shallow/views by definition and not part of the claim; ConformerEnsemble(molecule) is a "
         "constructor that allocates empty conformers, not a copy route",
